@@ -60,9 +60,9 @@ def __check_ensemble_data(obs, ens):
 
 
 def __nonulldata(tobs, tsim):
-    """ Exclude nan data from obs and sim """
+    """ Exclude nan and infinite data from obs and sim """
 
-    idx = pd.notnull(tobs) & pd.notnull(tsim)
+    idx = np.isfinite(tobs) & np.isfinite(tsim)
     if np.sum(idx) == 0:
         raise ValueError("No valid data in transformed space")
 
